@@ -283,6 +283,10 @@ func c13Tiny(r *Run, st *c13Stats) error {
 			inputs = append(inputs, first+tl)
 		}
 	}
+	// every vocabulary token after something that produces no token (blanks, a tab, a comment)
+	for _, a := range gen.Vocab {
+		inputs = append(inputs, " "+a, "\t"+a+"\n", "/* c */"+a+"\n", "   "+a+" + 3\n")
+	}
 	// every near-miss line that needs no prelude, as the whole file (nothing before it: look-ahead
 	// code that scans from the start of the token list behaves differently there)
 	for _, l := range gen.NearMissLines {
@@ -339,7 +343,7 @@ type c13Case struct {
 
 func c13Round(r *Run, rng *gen.Rng, st *c13Stats, corpus []string, roundSize, sweepN int) error {
 	b := c13Budgets()
-	mounts := []string{"/sim/m", "/sim/m", "/w/my proj", "/a/b/c/d", "/m", "/home/u/.dotfiles/p", "/w/proj-1.2/src", "/w/projet-été/src", "/w/backup-2026-09-24T10:30:00/p", "/w/greeter:v2"}
+	mounts := []string{"/sim/m", "/sim/m", "/w/my proj", "/a/b/c/d", "/m", "/home/u/.dotfiles/p", "/w/proj-1.2/src", "/w/projet-été/src", "/w/backup-2026-09-24T10:30:00/p", "/w/greeter:v2", "/w/the quick brown fox jumps over the lazy dog_0123456789-h.tsh/p"}
 	exes := []string{"/sim/x", "/opt/tsh/bin", "/sim/m/bin"}
 	mk := func(gw *gen.GenWorld, family, corrupt string) c13Case {
 		mount, exe := rng.Pick(mounts), rng.Pick(exes)
